@@ -326,6 +326,17 @@ def _call(c: ast.Call, ev, t: str):
         if dt == "<torch.bool>":
             return out != 0
         return out
+    if name in ("torch.cat", "torch.stack") and c.args:
+        parts = ev(c.args[0])
+        rest = ast.Call(func=f, args=c.args[1:], keywords=c.keywords)
+        (dim,) = _kw(rest, ev, ["dim"], [0])
+        if not isinstance(parts, tuple) or not all(_is_arr(p_) for p_ in parts):
+            raise NotEvaluable("cat of non-tensors")
+        parts = [(_as_exact(p_) if any(q_.dtype != bool for q_ in parts) else p_) for p_ in parts]
+        try:
+            return np.concatenate(parts, axis=_int(dim)) if name.endswith("cat") else np.stack(parts, axis=_int(dim))
+        except ValueError:
+            raise NotEvaluable("cat shapes")
     if name in ("torch.min", "torch.max", "torch.minimum", "torch.maximum") and len(c.args) == 2 and not c.keywords:
         a, b = _as_exact(ev(c.args[0])), _as_exact(ev(c.args[1]))
         if _is_arr(a) and (_is_arr(b)):
@@ -380,6 +391,70 @@ def _call(c: ast.Call, ev, t: str):
     if m in ("sum", "mean", "any", "all"):
         dim, keepdim = _kw(c, ev, ["dim", "keepdim"], [None, False])
         return _reduce(x, m, dim, keepdim)
+    if m in ("max", "min") and len(c.args) + len(c.keywords) >= 1 and not (len(c.args) == 1 and _is_arr(ev(c.args[0]))):
+        dim, keepdim = _kw(c, ev, ["dim", "keepdim"], [None, False])
+        if dim is not None and not _is_arr(dim):
+            a_ = _axis(_int(dim), x.ndim)
+            xe = _as_exact(x)
+            if xe.shape[a_] == 0:
+                raise NotEvaluable("max over an empty dimension")
+            mv = np.moveaxis(xe, a_, -1)
+            vals = np.empty(mv.shape[:-1], dtype=object)
+            idxs = np.empty(mv.shape[:-1], dtype=object)
+            for ix in np.ndindex(mv.shape[:-1]):
+                row = list(mv[ix])
+                best = max(row) if m == "max" else min(row)
+                if row.count(best) > 1:
+                    raise NotEvaluable("tie in max / min (index unspecified)")
+                vals[ix], idxs[ix] = best, Fraction(row.index(best))
+            if keepdim:
+                vals, idxs = np.expand_dims(vals, a_), np.expand_dims(idxs, a_)
+            return (vals, idxs)
+    if m == "prod":
+        dim, keepdim = _kw(c, ev, ["dim", "keepdim"], [None, False])
+        xe = _as_exact(x)
+        if dim is None:
+            out = Fraction(1)
+            for z in xe.reshape(-1).tolist():
+                out *= z
+            return out
+        a_ = _axis(_int(dim), x.ndim)
+        mv = np.moveaxis(xe, a_, -1)
+        out = np.empty(mv.shape[:-1], dtype=object)
+        for ix in np.ndindex(mv.shape[:-1]):
+            pr = Fraction(1)
+            for z in mv[ix]:
+                pr *= z
+            out[ix] = pr
+        return np.expand_dims(out, a_) if keepdim else out
+    if m == "masked_select" and len(c.args) == 1:
+        mask = ev(c.args[0])
+        if not (_is_arr(mask) and mask.dtype == bool):
+            raise NotEvaluable("mask")
+        return np.broadcast_to(x, np.broadcast(x, mask).shape)[np.broadcast_to(mask, np.broadcast(x, mask).shape)]
+    if m in ("masked_scatter", "masked_scatter_") and len(c.args) == 2:
+        mask, src = ev(c.args[0]), ev(c.args[1])
+        if not (_is_arr(mask) and mask.dtype == bool and _is_arr(src)):
+            raise NotEvaluable("masked_scatter arguments")
+        mb = np.broadcast_to(mask, x.shape)
+        flat = src.reshape(-1)
+        if int(mb.sum()) > flat.size:
+            raise NotEvaluable("masked_scatter source too short")
+        out = np.array(_as_exact(x), dtype=object, copy=True)
+        out[mb] = flat[: int(mb.sum())]
+        return out
+    if m == "gather" and len(c.args) == 2 and not c.keywords:
+        d = _axis(_int(ev(c.args[0])), x.ndim)
+        idx = ev(c.args[1])
+        if not _is_arr(idx) or idx.ndim != x.ndim:
+            raise NotEvaluable("gather index")
+        ii = np.vectorize(lambda z: int(z), otypes=[int])(idx) if idx.size else idx.astype(int)
+        if ii.size and (ii.min() < 0 or ii.max() >= x.shape[d]):
+            raise NotEvaluable("gather index out of range")
+        try:
+            return np.take_along_axis(x, ii, axis=d)
+        except (ValueError, IndexError):
+            raise NotEvaluable("gather shapes")
     if m in ("neg", "neg_"):
         return -_as_exact(x)
     if m in ("abs", "abs_"):
